@@ -12927,3 +12927,148 @@ func extraC12UnknownContentIsError(c *Ctx, r *Report) {
 	addMutants(Mutant{Prop: "C12", Name: "nil-content-converted-to-nothing", File: "internal/adapter/translator/anthropic/request.go", Rule: "C12-R17",
 		Old: "			return nil, fmt.Errorf(\"invalid content type: %T\", msg.Content)\n", New: "			if msg.Content == nil {\n				return result, nil\n			}\n			return nil, fmt.Errorf(\"invalid content type: %T\", msg.Content)\n"})
 }
+
+// ---------- C14-R15: the translator keeps the configuration it was given ----------
+func init() { registerExtra("C14", extraC14ConstructorKeepsConfig) }
+
+func extraC14ConstructorKeepsConfig(c *Ctx, r *Report) {
+	r.Rule("C14-R15", "the configuration block the Anthropic translator's constructor stores in the translator (the one CanPassthrough reads passthrough_enabled from) is the constructor's own config parameter: it is not replaced as a whole by another value (the shipped defaults, a rebuilt block), and its PassthroughEnabled field is not assigned in the constructor. 'Take the defaults as the base when the size limit is missing' copies back the fields somebody thought of — and turns an explicit passthrough_enabled: false back on, because the shipped default is true", 1)
+	n := 0
+	for _, f := range c.Funcs {
+		if !strings.HasSuffix(fnPkgPath(f), pkgAnthropic) || f.Blocks == nil || f.Parent() != nil {
+			continue
+		}
+		var cfgParam *ssa.Parameter
+		for _, p := range f.Params {
+			if isNamed(p.Type(), "internal/config", "AnthropicTranslatorConfig") {
+				cfgParam = p
+			}
+		}
+		if cfgParam == nil {
+			continue
+		}
+		eachInstr(f, func(in ssa.Instruction) {
+			st, ok := in.(*ssa.Store)
+			if !ok || !isNamed(deref(st.Addr.Type()), "internal/config", "AnthropicTranslatorConfig") {
+				return
+			}
+			fa, isFA := st.Addr.(*ssa.FieldAddr)
+			if !isFA || !isNamed(deref(fa.X.Type()), pkgAnthropic, "Translator") {
+				return
+			}
+			n++
+			key := fname(f) + ":stores-its-own-config"
+			bad := ""
+			var check func(v ssa.Value, d int)
+			check = func(v ssa.Value, d int) {
+				if d == 0 || bad != "" {
+					return
+				}
+				switch x := v.(type) {
+				case *ssa.Parameter:
+					if x != cfgParam {
+						bad = "another parameter"
+					}
+				case *ssa.UnOp:
+					al, isAl := x.X.(*ssa.Alloc)
+					if x.Op != token.MUL || !isAl {
+						bad = "a value loaded from elsewhere"
+						return
+					}
+					for _, ref := range *al.Referrers() {
+						switch y := ref.(type) {
+						case *ssa.Store:
+							if y.Addr == ssa.Value(al) {
+								check(y.Val, d-1)
+							}
+						case *ssa.FieldAddr:
+							if _, fld, ok := fieldOf(y); ok && fld.Name() == "PassthroughEnabled" {
+								for _, r2 := range *y.Referrers() {
+									if _, isSt := r2.(*ssa.Store); isSt {
+										bad = "a block whose PassthroughEnabled the constructor assigns"
+									}
+								}
+							}
+						}
+					}
+				case *ssa.Phi:
+					for _, e := range x.Edges {
+						check(e, d-1)
+					}
+				default:
+					bad = "a value that is not the constructor's parameter (" + strings.TrimSpace(v.String()) + ")"
+				}
+			}
+			check(st.Val, 5)
+			if bad != "" {
+				r.Bad("C14-R15", key, in.Pos(), "the configuration stored in the translator can be "+bad+" instead of the block the constructor was given: passthrough_enabled (and whatever else was not copied back) silently takes the shipped default — true — so requests are passed through on a translation-only configuration")
+			} else {
+				r.OK("C14-R15", key, in.Pos(), "the translator stores the configuration block it was constructed with")
+			}
+		})
+	}
+	if n == 0 {
+		r.Undecided("C14-R15", "translator-constructors", token.NoPos, "no constructor storing an AnthropicTranslatorConfig into a Translator found")
+	}
+	addMutants(Mutant{Prop: "C14", Name: "constructor-rebases-config-on-defaults", File: "internal/adapter/translator/anthropic/translator.go", Rule: "C14-R15",
+		Old: "	// Apply defaults if needed\n	maxSize := cfg.MaxMessageSize\n", New: "	if cfg.MaxMessageSize <= 0 {\n		base := config.DefaultConfig().Translators.Anthropic\n		base.Enabled = cfg.Enabled\n		base.Inspector = cfg.Inspector\n		cfg = base\n	}\n	// Apply defaults if needed\n	maxSize := cfg.MaxMessageSize\n"})
+}
+
+// ---------- C18-R19: waiting for a backend's first byte is bounded by the read timeout only ----------
+func init() { registerExtra("C18", extraC18HeaderTimeoutNotFromDial) }
+
+func extraC18HeaderTimeoutNotFromDial(c *Ctx, r *Report) {
+	r.Rule("C18-R19", "an http.Transport the proxy engines build leaves ResponseHeaderTimeout unset, or derives it from the read / response timeout getters — never from the connection timeout or a constant: an LLM backend may take its whole model-loading or generation time before the first header byte, so 'fail fast if it accepted the connection but does not answer within the dial timeout' cuts off exactly the requests that pause before their headers for less than the read timeout", 0)
+	n := 0
+	for _, f := range c.Funcs {
+		if !strings.Contains(fnPkgPath(f), "/adapter/proxy") || f.Blocks == nil {
+			continue
+		}
+		eachInstr(f, func(in ssa.Instruction) {
+			st, ok := in.(*ssa.Store)
+			if !ok || !isField(st.Addr, "net/http", "Transport", "ResponseHeaderTimeout") {
+				return
+			}
+			n++
+			key := fname(f) + ":ResponseHeaderTimeout"
+			fromRead := false
+			var walk func(v ssa.Value, d int)
+			walk = func(v ssa.Value, d int) {
+				if v == nil || d == 0 {
+					return
+				}
+				if call, ok := v.(*ssa.Call); ok {
+					name := ""
+					if call.Call.IsInvoke() {
+						name = call.Call.Method.Name()
+					} else if sc := call.Call.StaticCallee(); sc != nil {
+						name = sc.Name()
+					}
+					if name == "GetReadTimeout" || name == "GetResponseTimeout" {
+						fromRead = true
+					}
+				}
+				if x, ok := v.(ssa.Instruction); ok {
+					for _, op := range x.Operands(nil) {
+						if *op != nil {
+							walk(*op, d-1)
+						}
+					}
+				}
+			}
+			walk(st.Val, 4)
+			if k, isK := constInt(st.Val); isK && k == 0 {
+				r.OK("C18-R19", key, in.Pos(), "unset")
+			} else if fromRead {
+				r.OK("C18-R19", key, in.Pos(), "derived from the read / response timeout")
+			} else {
+				r.Bad("C18-R19", key, in.Pos(), "the transport gives up when the backend's response headers do not arrive within a limit that is not the read timeout (the connection timeout, a constant): a backend that is loading a model or generating a non-streamed answer is cut off with a 502 although it paused for less than the read timeout")
+			}
+		})
+	}
+	if n == 0 {
+		r.Triv("C18-R19", "response-header-timeouts", token.NoPos, "no engine transport sets ResponseHeaderTimeout")
+	}
+	addMutants(Mutant{Prop: "C18", Name: "header-wait-bounded-by-dial-timeout", File: "internal/adapter/proxy/olla/service.go", Rule: "C18-R19",
+		Old: "		DisableCompression:  true,\n		ForceAttemptHTTP2:   true,\n", New: "		DisableCompression:  true,\n		ForceAttemptHTTP2:   true,\n		ResponseHeaderTimeout: config.GetConnectionTimeout(),\n"})
+}
